@@ -815,7 +815,7 @@ def local_defs(fi: FuncInfo, name: str) -> list[tuple[ast.AST, ast.AST]]:
     return out
 
 
-def expand(fi: FuncInfo, expr: ast.AST, depth: int = 6, _seen=None) -> ast.AST:
+def expand(fi: FuncInfo, expr: ast.AST, depth: int = 6, _seen=None, skip=()) -> ast.AST:
     """Substitute local names that have exactly one plain definition in fi by
     that definition (recursively, bounded).  Gives a 'provenance term'."""
     import copy
@@ -823,10 +823,10 @@ def expand(fi: FuncInfo, expr: ast.AST, depth: int = 6, _seen=None) -> ast.AST:
 
     class Sub(ast.NodeTransformer):
         def visit_Name(self, n):
-            if isinstance(n.ctx, ast.Load) and n.id not in _seen and depth > 0 and n.id not in fi.params():
+            if isinstance(n.ctx, ast.Load) and n.id not in _seen and depth > 0 and n.id not in fi.params() and n.id not in skip:
                 ds = local_defs(fi, n.id)
                 if ds and all(d[0] is not None for d in ds) and len({unparse(d[0]) for d in ds}) == 1:
-                    return expand(fi, copy.deepcopy(ds[0][0]), depth - 1, _seen | {n.id})
+                    return expand(fi, copy.deepcopy(ds[0][0]), depth - 1, _seen | {n.id}, skip)
             return n
 
         def visit_Lambda(self, n):
